@@ -11,18 +11,38 @@ TB_SSZ = [
 ]
 
 def facts_coverage(ctx):
-    """Recognised/opaque counts of the regenerated SSZ facts table (what the table theorems do not cover)."""
-    import os, re
-    p = os.path.join(os.path.dirname(os.path.dirname(os.path.dirname(os.path.abspath(__file__)))), "lean", "Zrnt", "Gen", "SszFacts.lean")
+    """Recognised/opaque counts of the regenerated SSZ facts table (what the table theorems do not cover).
+    When the facts module no longer builds, names the offending rows: evaluates `checkType` on every row of the
+    regenerated table (compiled evaluation, only to *name* the type/method; the obligation itself is the kernel's)."""
+    import os, re, subprocess
+    root = os.path.dirname(os.path.dirname(os.path.dirname(os.path.abspath(__file__))))
+    p = os.path.join(root, "lean", "Zrnt", "Gen", "SszFacts.lean")
     try:
         src = open(p).read()
     except OSError:
         return {}
     m = re.search(r"def opaqueMethods : List String := \[(.*?)\]", src, re.S)
     opaque = re.findall(r'"([^"]+)"', m.group(1)) if m else []
-    return dict(ssz_facts=dict(go_types=len(re.findall(r"^def T_", src, re.M)), view_type_defs=len(re.findall(r"^def V_", src, re.M)),
-                               method_bodies=5 * len(re.findall(r"^def T_", src, re.M)), opaque_method_bodies=len(opaque),
-                               opaque_list=opaque, row_obligations=len(re.findall(r"^theorem row_ok_", src, re.M))))
+    cov = dict(ssz_facts=dict(go_types=len(re.findall(r"^def T_", src, re.M)), view_type_defs=len(re.findall(r"^def V_", src, re.M)),
+                              method_bodies=5 * len(re.findall(r"^def T_", src, re.M)), opaque_method_bodies=len(opaque),
+                              opaque_list=opaque, row_obligations=len(re.findall(r"^theorem row_ok_", src, re.M))))
+    if any("lake build" in str(b.get("what", "")) for b in ctx.get("broken", [])):
+        body = src.split("theorem row_ok_")[0]
+        script = body + ("\nopen Zrnt.Schema in\n#eval (types.filterMap fun T => (checkType owners views T).map "
+                         "fun r => s!\"ROW {Name.toString T.name}: {r}\")\nend Zrnt.Gen.SszFacts\n")
+        os.makedirs(os.path.join(root, "build", "audit"), exist_ok=True)
+        sp = os.path.join(root, "build", "audit", "ssz_rows.lean")
+        open(sp, "w").write(script)
+        try:
+            out = subprocess.run(["lake", "env", "lean", sp], cwd=os.path.join(root, "lean"), stdout=subprocess.PIPE,
+                                 stderr=subprocess.STDOUT, text=True, timeout=600).stdout
+            rows = re.findall(r'"ROW ([^"]+)"', out)
+            if rows:
+                ctx["broken"].append(dict(what="ssz facts: rows that disagree with the specification schema (type: method)", detail=rows[:40]))
+                cov["ssz_facts"]["failing_rows"] = rows[:40]
+        except Exception as e:  # naming the rows is best effort; the broken obligation is already recorded
+            cov["ssz_facts"]["failing_rows_error"] = str(e)[:200]
+    return cov
 
 
 PROPS = {"C04": dict(
@@ -32,6 +52,7 @@ PROPS = {"C04": dict(
               "Zrnt.Proofs.C04.fixedLen_iff_isFixed", "Zrnt.Proofs.C04.encode_size_of_isFixed",
               "Zrnt.Proofs.C04.decode_some_imp_canonical", "Zrnt.Proofs.C04.decode_injective",
               "Zrnt.Proofs.C04.decode_list_within_limit", "Zrnt.Proofs.C04.encode_injective",
+              "Zrnt.Proofs.C04.schema_types_legal", "Zrnt.Proofs.C04.schema_round_trip",
               "Zrnt.Proofs.C04.ssz_methods_agree", "Zrnt.Proofs.C04.ssz_types_complete"],
     modes=[dict(name="ssz")],
     level="proof",
